@@ -20,9 +20,11 @@ CATS = ["sources", "outputs", "attachments", "metadata", "id", "details"]
 # the 'Ignore' mapping mirrors the category -> path table of set_notebook_diff_targets (the property's anchor for it)
 RULE = ("all 64 subsets I of the six categories x the ways of stating them (positive flags, negative flags, an 'Ignore' mapping in a "
         "nbdime_config.json read by the real ConfigBackedParser of nbdiff - values True, key lists for details, optional explicit False for "
-        "the rest) x generated notebook pairs (B an edit script of A touching several categories: sources, outputs of every type with their "
+        "the rest; the same mapping split over the Diff and NbDiff sections; and the server extension's order: some categories as flags "
+        "first, the others as a key-list mapping applied afterwards) x generated notebook pairs (B an edit script of A touching several categories: sources, outputs of every type with their "
         "own metadata and execution counts, attachments incl. gaining/losing the whole dict, notebook/cell/output metadata, ids, "
-        "execution counts). Each case runs one pair under every subset (way rotating), i.e. the 64 subsets are enumerated per case. "
+        "execution counts; one pair in five shifts the execution counts of otherwise equal execute_result outputs or exchanges the ids "
+        "of cells of one type). Each case runs one pair under every subset (way rotating), i.e. the 64 subsets are enumerated per case. "
         "Oracles: (a) no diff entry whose own path lies in an ignored category (category map written from the option help texts: "
         "/cells/*/source; /cells/*/outputs/**; /cells/*/attachments/**; /metadata/**, /cells/*/metadata/**, /cells/*/outputs/*/metadata/**; "
         "/cells/*/id; /cells/*/execution_count and /cells/*/outputs/*/execution_count); whole-cell add/remove is not inside a category; (b) "
